@@ -11,38 +11,7 @@ verus! {
 //@ include prelude/bigint_bytes.rs
 //@ include prelude/std.rs
 
-//@ extract enum BytesFromType from src/classic/clvm/__type_compatibility__.rs
-//@ end
-//@ extract struct Bytes from src/classic/clvm/__type_compatibility__.rs
-//@ end
-pub closed spec fn bv(b: Bytes) -> Seq<u8> { b._b@ }
-
-impl Bytes {
-//@ extract fn new from src/classic/clvm/__type_compatibility__.rs in impl Bytes
-//@ sig r
-    ensures
-        value is None ==> bv(r) == Seq::<u8>::empty(),
-        value matches Some(BytesFromType::Raw(v)) ==> bv(r) == v@,
-    decreases (if value matches Some(BytesFromType::String(_)) { 1int } else { 0int })
-//@ end
-//@ extract fn length from src/classic/clvm/__type_compatibility__.rs in impl Bytes
-//@ sig r
-    ensures r == bv(*self).len()
-//@ end
-//@ extract fn at from src/classic/clvm/__type_compatibility__.rs in impl Bytes
-//@ sig r
-    requires i < bv(*self).len()
-    ensures r == bv(*self)[i as int]
-//@ end
-//@ extract fn raw from src/classic/clvm/__type_compatibility__.rs in impl Bytes
-//@ sig r
-    ensures r@ == bv(*self)
-//@ end
-//@ extract fn data from src/classic/clvm/__type_compatibility__.rs in impl Bytes
-//@ sig r
-    ensures r@ == bv(*self)
-//@ end
-}
+//@ include units/inc/bytes.rs
 
 //@ extract fn bi_zero from src/classic/clvm/__type_compatibility__.rs
 //@ sig r
@@ -53,22 +22,7 @@ impl Bytes {
     ensures bi(r) == 1
 //@ end
 
-//@ note get_u32 must be big-endian: its callers (int_from_bytes, bigint_from_bytes) assemble words most-significant first and set_u32 writes big-endian (finding F1)
-//@ extract fn get_u32 from src/classic/clvm/__type_compatibility__.rs
-//@ sig r
-    requires n + 3 < v@.len()
-    ensures r as int == be_unsigned(v@.subrange(n as int, n + 4))
-//@ before tail
-    proof {
-        lemma_be_four(v@.subrange(n as int, n + 4));
-        assert(p1 < 256 && p2 < 256 && p3 < 256 && p4 < 256);
-        assert(((p1 << 24) | (p2 << 16) | (p3 << 8) | p4) == p1 * 16777216 + p2 * 65536 + p3 * 256 + p4) by(bit_vector)
-            requires p1 < 256 && p2 < 256 && p3 < 256 && p4 < 256;
-    }
-//@ end
-
-//@ extract struct TConvertOption from src/classic/clvm/casts.rs
-//@ end
+//@ include units/inc/int_from_bytes.rs
 
 //@ extract fn bigint_from_bytes from src/classic/clvm/casts.rs
 //@ canary drop_remain_offset @<i * 4 + bytes4_remain>@ => @<i * 4>@
@@ -164,93 +118,5 @@ impl Bytes {
         }
 //@ end
 
-//@ extract fn int_from_bytes from src/classic/clvm/casts.rs
-//@ canary drop_remain_offset @<i * 4 + bytes4_remain>@ => @<i * 4>@
-//@ replace R4 @<option.map(|cvt| cvt.signed).unwrap_or_else(|| false)>@ => @<(match option { Some(cvt) => cvt.signed, None => false })>@
-//@ sig r
-    requires
-        bv(b).len() * 8 <= usize::MAX,
-        (option is Some && option->Some_0.signed) ==> (bv(b).len() == 0 || bv(b).len() > 8 || bv(b)[0] < 0x80),
-    ensures
-        bv(b).len() <= 8 ==> (r matches Ok(v) && v as int == be_unsigned(bv(b))),
-        bv(b).len() > 8 ==> r is Err,
-//@ after stmt @<let mut order>@
-    let ghost len = dv@.len() as int;
-    proof {
-        lemma2_to64();
-        lemma2_to64_rest();
-        assert(dv@.subrange(len, len) =~= Seq::<u8>::empty());
-    }
-//@ loop 0
-            invariant
-                dv@ == bv(b), len == dv@.len(), bytes4_remain < 4, len <= 8,
-                bytes4_remain + 4 * bytes4_length == len,
-                unsigned64 as int == be_unsigned(dv@.subrange(len - 4 * i_reverse, len)),
-                order == (if i_reverse == 0 { 1u64 } else if i_reverse == 1 { 0x1_0000_0000u64 } else { 0u64 }),
-//@ before stmt @<unsigned64 += byte32>@
-            proof {
-                lemma2_to64();
-                let off = len - 4 * (i_reverse + 1);
-                let w = dv@.subrange(off, off + 4);
-                let rest = dv@.subrange(off + 4, len);
-                assert(dv@.subrange(off, len) =~= w + rest);
-                lemma_be_concat(w, rest);
-                lemma_be_bounds(w);
-                lemma_be_bounds(rest);
-                assert(byte32 * order <= 0xffff_ffff * 0x1_0000_0000) by(nonlinear_arith)
-                    requires byte32 <= 0xffff_ffff, order <= 0x1_0000_0000;
-                if i_reverse == 1 {
-                    assert(byte32 * order + unsigned64 <= 0xffff_ffff * 0x1_0000_0000 + 0xffff_ffff) by(nonlinear_arith)
-                        requires byte32 <= 0xffff_ffff, order == 0x1_0000_0000, unsigned64 <= 0xffff_ffff;
-                }
-            }
-//@ after stmt @<order <<= 32>@
-            proof {
-                assert(1u64 << 32 == 0x1_0000_0000u64) by(bit_vector);
-                assert(0x1_0000_0000u64 << 32 == 0u64) by(bit_vector);
-            }
-//@ before stmt @<if bytes4_remain > 0>@
-    assert(unsigned64 as int == be_unsigned(dv@.subrange(bytes4_remain as int, len)));
-//@ loop 1
-            invariant
-                dv@ == bv(b), len == dv@.len(), bytes4_remain < 4, len <= 7, bytes4_length <= 1,
-                bytes4_remain + 4 * bytes4_length == len,
-                unsigned64 as int == be_unsigned(dv@.subrange(bytes4_remain - i_reverse, len)),
-                order as int == pow2((32 * bytes4_length + 8 * i_reverse) as nat) as int,
-//@ before stmt @<unsigned64 += byte * order>@
-            proof {
-                lemma2_to64();
-                lemma2_to64_rest();
-                let e = (32 * bytes4_length + 8 * i_reverse) as nat;
-                let off = bytes4_remain - (i_reverse + 1);
-                let w = dv@.subrange(off, off + 1);
-                let rest = dv@.subrange(off + 1, len);
-                assert(dv@.subrange(off, len) =~= w + rest);
-                lemma_be_concat(w, rest);
-                assert(w =~= seq![dv@[off]]);
-                lemma_be_single(dv@[off]);
-                lemma_be_bounds(rest);
-                assert((8 * rest.len()) as nat == e);
-                lemma_pow2_adds(e, 8);
-                assert(e <= 48);
-                lemma_pow2_strictly_increases(e, 56);
-                lemma_pow2_strictly_increases(e + 8, 64);
-                assert(byte * order + unsigned64 < pow2(e + 8)) by(nonlinear_arith)
-                    requires byte <= 255, unsigned64 < order, order == pow2(e), pow2(e + 8) == pow2(e) * 256;
-                assert(byte * order <= byte * order + unsigned64);
-                assert(order << 8 == order * 256) by(bit_vector)
-                    requires order < 0x100_0000_0000_0000u64;
-            }
-//@ after stmt @<order <<= 8>@
-            proof {
-                assert((32 * bytes4_length + 8 * i_reverse) as nat + 8 == (32 * bytes4_length + 8 * (i_reverse + 1)) as nat);
-            }
-//@ before stmt @<if signed &&>@
-    proof {
-        assert(dv@.subrange(0, len) =~= dv@);
-        let d0 = dv@[0];
-        assert(((d0 & 0x80) != 0) == (d0 >= 0x80)) by(bit_vector);
-    }
-//@ end
 }
 fn main() {}
